@@ -7,4 +7,5 @@ export VERIF_DIR PUBLISH_SKIP_BUILD=1 CARGO_NET_OFFLINE=true
 . "$VERIF_DIR/tools/lib.sh"
 rm -f "$VERIF_DIR/harness/Cargo.lock"
 build_harness || exit 2
+build_harness_ovf || exit 2
 echo "setup ok"
